@@ -236,8 +236,8 @@ def classify_gateway_arg(fn, du, call, names):
   prods = set()
   for v in cands:
     if isinstance(v, ast.Call):
-      d = dotted(v.func) if dotted(v.func) else (v.func.attr if isinstance(v.func, ast.Attribute)
-                                                 else None)
+      d = fn.name(v) or dotted(v.func) or (v.func.attr if isinstance(v.func, ast.Attribute)
+                                           else None)
       last = d.split(".")[-1] if d else None
       if last in OPAQUE_PRODUCERS:
         prods.add(last)
@@ -1144,3 +1144,93 @@ def nonempty_value(fn, e, name):
       if isinstance(op, ast.Eq):
         return False
   return None
+
+
+# ---------------------------------------------------------------------- private helper closure
+def referrers(w, fi):
+  """[(FuncInfo of the referring function, is a `self.<name>(...)` call that resolves to fi)] for
+  every mention of method fi's name as an attribute that can denote fi."""
+  out = []
+  for g in w.repo.all_functions():
+    for x in ast.walk(g.node):
+      if isinstance(x, ast.Attribute) and x.attr == fi.name:
+        own = g.cls is not None and w.repo.find_method(g.cls, fi.name) is fi
+        recv_self = isinstance(x.value, ast.Name) and x.value.id == "self"
+        if recv_self and g.cls is not None and not own:
+          continue          # another class's own method of the same name
+        called = any(isinstance(c, ast.Call) and c.func is x for c in ast.walk(g.node))
+        out.append((g, bool(own and recv_self and called)))
+  return out
+
+
+def private_helpers(w, roots):
+  """Qualnames of the methods that are, in effect, parts of the root functions: same-class
+  methods reached from a root through `self.<m>(...)` calls (transitively) every mention of which
+  anywhere in the repository is such a call made by a root or by another such helper."""
+  roots = set(roots)
+  ua = set(f.qualname for f in w.useraction_methods().values())
+  cand = {}
+  todo = list(roots)
+  seen = set()
+  while todo:
+    q = todo.pop()
+    if q in seen:
+      continue
+    seen.add(q)
+    fi = w.repo.funcs.get(q)
+    if fi is None or fi.cls is None:
+      continue
+    fn = w.fn_of(fi)
+    for (n, c, nm) in fn.calls():
+      h = self_method(w, fn, c)
+      if h is not None and h.qualname not in roots and h.qualname not in cand and \
+          h.qualname not in ua and not h.name.startswith("__") and h.parent is None:
+        cand[h.qualname] = h
+        todo.append(h.qualname)
+  refs = {q: [(g, ok) for (g, ok) in referrers(w, h)
+              if g.qualname != q and (g.parent is None or g.parent.qualname != q)]
+          for q, h in cand.items()}
+  ok = set(cand)
+  changed = True
+  while changed:
+    changed = False
+    for q in list(ok):
+      for (g, good) in refs[q]:
+        gq = g.qualname if g.parent is None else g.parent.qualname
+        if not good or not (gq in roots or gq in ok):
+          ok.discard(q)
+          changed = True
+          break
+  return ok
+
+
+def bound_args(w, call, callee_qualname, n=None):
+  """Expressions bound to the first n parameters (after self) of the named callee at `call`,
+  positional or by keyword; None for parameters that are not given; None altogether when the call
+  uses */** arguments."""
+  fi = w.repo.funcs.get(callee_qualname)
+  if fi is None:
+    return None
+  ps = fi.params()
+  if ps[:1] in (["self"], ["cls"]):
+    ps = ps[1:]
+  if n is not None:
+    ps = ps[:n]
+  if any(isinstance(x, ast.Starred) for x in call.args) or any(k.arg is None for k in call.keywords):
+    # **kwargs after the explicit arguments (docmodel.insert(recs, pos, **values)) is fine for the
+    # leading parameters as long as those are given positionally
+    if any(isinstance(x, ast.Starred) for x in call.args) or len(call.args) < len(ps):
+      return None
+  out = []
+  for i, p in enumerate(ps):
+    if i < len(call.args):
+      out.append(call.args[i])
+    else:
+      out.append(kwarg(call, p))
+  return out
+
+
+def funnel_args(w, call):
+  """(table expression, rows expression) of a doBulkRemoveRecord call, else (None, None)."""
+  a = bound_args(w, call, "useractions.UserActions.doBulkRemoveRecord", 2)
+  return (a[0], a[1]) if a and len(a) == 2 else (None, None)
